@@ -247,7 +247,7 @@ ApplyListedProps(pm, entries) ==
 
 RInitP(PS) == [lists |-> <<>>, prev |-> EmptyMap, order |-> <<>>,
                len |-> [p \in PS |-> 0], mty |-> [p \in PS |-> "none"],
-               props |-> [p \in PS |-> EmptyMap], err |-> FALSE, partial |-> FALSE]
+               props |-> [p \in PS |-> EmptyMap], ks |-> <<>>, err |-> FALSE, partial |-> FALSE]
 RInit == RInitP(Paths)
 
 ReadSegP(PS, st, s) ==       \* PS: the set of object paths of the file
@@ -277,6 +277,7 @@ ReadSegP(PS, st, s) ==       \* PS: the set of object paths of the file
                                              THEN objs[PosOf(objs, p)].n * k ELSE 0)],
       mty   |-> [p \in PS |-> IF p \in PathsIn(objs) THEN objs[PosOf(objs, p)].ty ELSE st.mty[p]],
       props |-> IF s.meta THEN ApplyListedProps(st.props, s.listed) ELSE st.props,
+      ks    |-> Append(st.ks, k),
       err   |-> FALSE, partial |-> FALSE]
 
 ReadSeg(st, s) == ReadSegP(Paths, st, s)
